@@ -63,8 +63,15 @@ EUs(base) ==
     [k \in 1..(Len(EUErrs) * Len(base)) |->
         EU(EUErrs[((k - 1) \div Len(base)) + 1], base[((k - 1) % Len(base)) + 1])]
 
+(* structs with zero-sized members: a zero-length array keeps its element's alignment, so it pads
+   what precedes it and raises the struct's alignment although it occupies nothing *)
+ZLists == <<<<U8, Arr(0, I64)>>, <<U8, Arr(0, I32), U8, I16>>, <<Arr(0, I64)>>, <<U8, Arr(0, Str)>>,
+            <<U8, Void, I32>>, <<U8, Nil>>, <<Arr(3, Void), I16>>, <<U8, Arr(0, U16), U8>>,
+            <<I32, Arr(0, P_I64U8)>>, <<U8, AnonStruct(<<>>), I16>>, <<Arr(0, U8), I64>>,
+            <<U8, Arr(0, Ptr(FALSE, I32))>>, <<U8, Arr(0, I128)>>>>
 LD1 == Wrap(Base) \o EUs(<<Void, U8, U16, I32, I64, Str, Bool, F64, I128>>)
         \o StructsOf(ListsOfLen(MemberPool, 1) \o ListsOfLen(MemberPool, 2) \o ListsOfLen(MemberPool, 3))
+        \o StructsOf(ZLists)
         \o Enums \o Variants
         \o <<FnPtr(<<>>, Void), FnPtr(<<I32>>, I32)>>
 
